@@ -66,6 +66,7 @@ MAIN_KEYS = {
     'tuple': [(1, 2), ('a', 3), (5,), (), ('x', 'y'), ('x[1]', 2)],      # (one key whose text holds a bracket expression, as glob patterns do)
     'bytes': [pickle.dumps(x) for x in [(1,), 'a', (2, 'b')]],
 }
+BIGVALUE = 'ab' * 800000          # 1.6 MB of text
 ALIAS_KEYS = [1, '1', 'a-b', 'a_b', (1, 2), '(1, 2)', -3, '_3']
 
 
@@ -213,6 +214,10 @@ def gen(tier, idx):
                 ops.append(['copy', h, nh]); nh += 1
         elif op == 'eq': ops.append(['eq', h, r.randrange(nh)])
         if cached and r.random() < 0.15: ops.append([r.choice(['dump', 'load']), r.randrange(nh)])
+    if kind == 'dir' and (opts.get('compression') or opts.get('fast') or opts.get('memmode')) and keys and (idx // len(CONFIGS)) % 3 == 0:
+        # stratum (the entry files written by klepto's own pickler): a value whose pickle is larger than one megabyte, stored and read back
+        at = r.randrange(len(ops) + 1)
+        ops[at:at] = [['setitem', 0, keys[-1], BIGVALUE], ['getitem', 0, keys[-1]], ['setitem', 0, keys[-1], 0]]
     if (idx // len(CONFIGS)) % 2 == 1 and keys:
         # stratum: a stored value overwritten by one that is == to it but of another type (1 -> True; by assignment and by update): the
         # archive holds what was stored last, to the type
